@@ -250,23 +250,26 @@ pub uninterp spec fn status_read(address: u16, st: Status) -> bool;
 pub open spec fn sm_status_reg(sm: u8) -> u16 { (0x0800 + 8 * sm + 5) as u16 }
 /// the sync manager status byte as far as it is looked at here (src/sync_manager_channel.rs; layout: C19)
 pub struct Status { pub mailbox_full: bool }
-pub struct WrappedRead { pub address: u16 }
+/// (`checked`: the read still expects exactly one device to answer - `ignore_wkc` gives that up)
+pub struct WrappedRead { pub address: u16, pub checked: bool }
 impl WrappedRead {
     /// real bodies: src/command/reads.rs (unit `wrapped`)
     #[verifier::external_body]
-    pub fn ignore_wkc(self) -> (r: Self) ensures r.address == self.address { unimplemented!() }
-    /// `receive::<Status>`: the device may report ANY status
+    pub fn ignore_wkc(self) -> (r: Self) ensures r.address == self.address, !r.checked { unimplemented!() }
+    /// `receive::<Status>`: the device may report ANY status.  C11: a mailbox status poll must be a CHECKED read - a device that
+    /// does not answer (zero data = "mailbox free / no reply yet") has to surface as an error, not as a status
     #[verifier::external_body]
     pub async fn receive_status(self, maindevice: &MainDevice) -> (r: Result<Status, Error>)
+        requires self.checked
         ensures
             r is Ok ==> status_read(self.address, r->Ok_0),
             r is Err ==> net_err(r->Err_0),
     { unimplemented!() }
-    /// ANY bytes
+    /// ANY bytes; only a checked read counts as "what the device's mailbox held"
     #[verifier::external_body]
     pub async fn receive_slice(self, maindevice: &MainDevice, len: u16) -> (r: Result<ReceivedPdu, Error>)
         ensures
-            r is Ok ==> slice_read(self.address, len, (r->Ok_0).data()),
+            r is Ok && self.checked ==> slice_read(self.address, len, (r->Ok_0).data()),
             r is Err ==> net_err(r->Err_0),
     { unimplemented!() }
 }
@@ -301,7 +304,7 @@ impl<'a> SubDeviceRef<'a> {
     { unimplemented!() }
     #[verifier::external_body]
     pub fn read(&self, register: u16) -> (r: WrappedRead)
-        ensures r.address == register
+        ensures r.address == register, r.checked
     { unimplemented!() }
     #[verifier::external_body]
     pub fn configured_address(&self) -> (r: u16) { unimplemented!() }
